@@ -208,6 +208,18 @@ func runEncoding(e *Enc, fn *ssa.Function, props []string) {
 			reach = and(reach, not(eq(f.vals[fn.Params[0]], intLit(0))))
 		}
 	}
+	for i, p := range fn.Params {
+		if i == 0 && fn.Signature.Recv() != nil {
+			continue
+		}
+		if f.implicitNonNil(fn, p.Type()) {
+			if t := f.vals[p]; t.Sort == SInt {
+				reach = and(reach, not(eq(t, intLit(0))))
+			} else if t.Sort == SIface {
+				reach = and(reach, not(eq(ifTag(t), intLit(0))))
+			}
+		}
+	}
 	// requires
 	entryEnv := func(cur, old *State) *SpecEnv {
 		env := &SpecEnv{f: f, names: map[string]Term{}, types: map[string]types.Type{}, cur: cur, old: old}
